@@ -54,9 +54,10 @@ def spec(name, c, e):
     if name == "is_certain_kind":
         return e.kind in c.valid_kinds
     if name == "is_author_whitelisted":
-        return e.pubkey in c.pubkey_whitelist
+        # fail-closed: an enabled whitelist that is empty or unset admits nobody
+        return c.pubkey_whitelist is not None and e.pubkey in c.pubkey_whitelist
     if name == "is_author_blacklisted":
-        return e.pubkey not in c.pubkey_blacklist
+        return c.pubkey_blacklist is not None and e.pubkey not in c.pubkey_blacklist
     if name == "is_pow":
         n = int(e.id, 16)
         zeros = 256 - n.bit_length()
@@ -81,6 +82,11 @@ def bound_cases():
     for pk in (A, B, C, "aa" * 31 + "ab"):
         out.append(("is_author_whitelisted", cfg(), mk_ev(pubkey=pk)))
         out.append(("is_author_blacklisted", cfg(), mk_ev(pubkey=pk)))
+        # the validator is configured but its list is empty / not set at all
+        for wl in ([], None, (), [pk], [B, pk]):
+            out.append(("is_author_whitelisted", cfg(pubkey_whitelist=wl), mk_ev(pubkey=pk)))
+        for bl in ([], None, [pk]):
+            out.append(("is_author_blacklisted", cfg(pubkey_blacklist=bl), mk_ev(pubkey=pk)))
     for bits in (256, 249, 248, 247, 200, 1, 0):
         for req in (0, 8, 9):
             out.append(("is_pow", cfg(require_pow=req), mk_ev(id_bits=bits)))
@@ -96,7 +102,8 @@ def bound_cases():
 
 def model_cfg(c):
     return {"max_event_size": c.max_event_size, "oldest_event": c.oldest_event, "valid_kinds": list(c.valid_kinds),
-            "whitelist": list(c.pubkey_whitelist), "blacklist": list(c.pubkey_blacklist), "require_pow": c.require_pow,
+            "whitelist": None if c.pubkey_whitelist is None else list(c.pubkey_whitelist),
+            "blacklist": None if c.pubkey_blacklist is None else list(c.pubkey_blacklist), "require_pow": c.require_pow,
             "hellthread_limit": c.hellthread_limit or 0, "service_pubkey": c.service_pubkey}
 
 
